@@ -1767,3 +1767,7 @@ mod test {
         );
     }
 }
+
+#[cfg(kani)]
+#[path = "/verif/harness/app_attr.rs"]
+mod verif_harness;
